@@ -638,11 +638,15 @@ def r4_attrs(L, repo, es):
                 val = canon(st.value, subst)
                 lits_s = guard_literals(cfg, cfg.node_of(st.node), subst)
                 upper = any((not p) and t.endswith(" < " + val) and t.split(" < ")[0].lstrip("-").isdigit() for t, p in lits_s)
-                # (the key names the stored attribute and the operation, not the function the operation happens to live in)
+                # (the keys name the stored attribute and the operation, not the function the operation happens to live in;
+                # lower and upper bound are separate obligations: losing the `> 0` guard is not the known upper-bound gap)
+                L.ob("C14.R4", st.mod.rel, st.func,
+                     "`%s` is stored from a received integer and later used by %s: the use is guarded by value > 0" % (a, kind),
+                     "use guarded by `> 0`", "use (%s) guards: %s" % (desc, lit_fmt(lits)), pos, st.node.lineno)
                 L.ob("C14.R4", st.mod.rel, st.func,
                      "`%s` is stored from a received integer and later used by %s: needs 0 < value <= a finite bound" % (a, kind),
-                     "use guarded by `> 0` and store guarded by an upper bound", "use (%s) >0: %s, store guards: %s" % (desc, pos, lit_fmt(lits_s)),
-                     pos and upper, st.node.lineno)
+                     "store guarded by an upper bound", "store guards: %s" % lit_fmt(lits_s),
+                     upper, st.node.lineno)
             continue
         if need[0] == "nonempty_list":
             # the list attribute must be proven non-empty where it is stored
